@@ -498,12 +498,17 @@ fn rewriter_docs() -> Vec<Value> {
     json!({"id": "rw-str", "language": "JavaScript", "rule": {"kind": "string"}, "fix": "'é'"}),
     json!({"id": "rw-call", "language": "JavaScript", "rule": {"kind": "call_expression"}, "fix": "call"}),
     json!({"id": "rw-del", "language": "JavaScript", "rule": {"kind": "identifier", "regex": "^x"}, "fix": ""}),
+    // rewriters whose rule is a bare relational rule (no kind / pattern next to it): the node that HAS a number is rewritten,
+    // not the number; judged by statement (the edit replaces the node the rule was asked about), see rewrite_record
+    json!({"id": "rw-has", "language": "JavaScript", "rule": {"has": {"kind": "number"}}, "fix": "H"}),
+    json!({"id": "rw-in", "language": "JavaScript", "rule": {"inside": {"kind": "array"}}, "fix": "I"}),
   ]
 }
 
 fn rewrite_cases(rng: &mut Rng, thorough: bool) -> Vec<RwCase> {
   let args_pool = ["1", "bar(2)", "x", "bar(bar(3))", "\"é🦀\"", "qux(4, bar(5))", "[6, x1]", "y"];
-  let orders: Vec<Vec<usize>> = vec![vec![0], vec![1, 0], vec![0, 1], vec![3, 1, 0], vec![1, 3], vec![2, 4, 0], vec![4], vec![1, 2, 0, 4]];
+  let orders: Vec<Vec<usize>> = vec![vec![0], vec![1, 0], vec![0, 1], vec![3, 1, 0], vec![1, 3], vec![2, 4, 0], vec![4], vec![1, 2, 0, 4],
+                                     vec![5], vec![6], vec![1, 5], vec![6, 0]];
   let n = if thorough { 400 } else { 60 };
   let mut out = vec![];
   for i in 0..n {
@@ -537,9 +542,17 @@ fn rewrite_record(c: &RwCase) -> Option<Value> {
   let cfg: Vec<ast_grep_config::RuleConfig<SupportLang>> = ast_grep_config::from_yaml_string(&serde_json::to_string(&rule).unwrap(), &globals).ok()?;
   let cfg = &cfg[0];
   // each rewriter on its own, to ask it about single nodes
-  let singles: Vec<ast_grep_config::RuleConfig<SupportLang>> = docs
+  let bare = |d: &Value| d["rule"].get("kind").is_none() && d["rule"].get("pattern").is_none();
+  let singles: Vec<Option<ast_grep_config::RuleConfig<SupportLang>>> = docs
     .iter()
-    .map(|d| ast_grep_config::from_yaml_string(&serde_json::to_string(d).unwrap(), &globals).unwrap().remove(0))
+    .map(|d| if bare(d) { None } else { Some(ast_grep_config::from_yaml_string(&serde_json::to_string(d).unwrap(), &globals).unwrap().remove(0)) })
+    .collect();
+  // a bare relational rule is not a rule file of its own (no kinds): the Rule alone says which nodes it matches, and the
+  // statement says what the edit is - the node itself replaced by the fix
+  let denv = ast_grep_config::DeserializeEnv::new(lang);
+  let bares: Vec<Option<ast_grep_config::Rule<SupportLang>>> = docs
+    .iter()
+    .map(|d| if bare(d) { denv.deserialize_rule(ast_grep_config::from_str(&serde_json::to_string(&d["rule"]).unwrap()).unwrap()).ok() } else { None })
     .collect();
   let grep = lang.ast_grep(&c.src);
   let nm = grep.root().find(&cfg.matcher)?;
@@ -553,7 +566,15 @@ fn rewrite_record(c: &RwCase) -> Option<Value> {
     for d in n.dfs() {
       let mut hits = vec![];
       for (oi, ri) in c.order.iter().enumerate() {
-        let m = &singles[*ri].matcher;
+        if let Some(rule) = &bares[*ri] {
+          let mut e = std::borrow::Cow::Owned(ast_grep_core::meta_var::MetaVarEnv::new());
+          if ast_grep_core::Matcher::match_node_with_env(rule, d.clone(), &mut e).is_some() {
+            let r = d.range();
+            hits.push(json!({"rw": oi + 1, "pos": r.start, "del": r.end - r.start, "ins": bytes(docs[*ri]["fix"].as_str().unwrap().as_bytes()), "by": "statement"}));
+          }
+          continue;
+        }
+        let m = &singles[*ri].as_ref().unwrap().matcher;
         let mut e = std::borrow::Cow::Owned(ast_grep_core::meta_var::MetaVarEnv::new());
         if let Some(found) = ast_grep_core::Matcher::match_node_with_env(m, d.clone(), &mut e) {
           let nm2 = ast_grep_core::NodeMatch::new(found, e.into_owned());
